@@ -340,8 +340,37 @@ def rejection_form_cases(ctx, n):
                           impl=str(out)[:200], key={"kind": "undefined-accepted"})
 
 
+def name_clash_cases(ctx):
+    """two group names that coincide once the library has normalised them ('Lesion' / 'lesion', 1 / '1'): the later definition replaces
+    the earlier one, so the labels of the replaced group belong to no group any more — an input that carries them is rejected, not
+    silently stripped of them; an input with the surviving group's labels only is evaluated"""
+    for names in (("Lesion", "lesion"), ("ORGAN", "Organ"), ("a1", "A1")):
+        groups = [{"name": names[0], "labels": [1, 2], "merge": False, "single": False}, {"name": names[1], "labels": [5], "merge": False, "single": False},
+                  {"name": "other", "labels": [7], "merge": False, "single": False}]
+        ref = np.zeros((4, 10), np.uint8)
+        ref[0:2, 0:3], ref[2:4, 5:8] = 5, 7
+        pred = np.roll(ref, 1, axis=1)
+        bad_ref = ref.copy()
+        bad_ref[0:2, 7:9] = 1
+        for it in ("MATCHED", "UNMATCHED", "SEMANTIC"):
+            cfg = E.mk_cfg(it, ["IOU", "DSC"], matcher=E.naive("IOU", (1, 4)) if it != "MATCHED" else None)
+            inp = {"shape": [4, 10], "dtype": "uint8", "pred": gen.arr_json(pred), "ref": gen.arr_json(bad_ref), "cfg": cfg, "groups": groups, "name_clash": list(names)}
+            ctx.case(inp, True)
+            ctx.count("group_names_clash_after_normalisation")
+            res = E.run_impl(cfg, pred, bad_ref, groups=groups)
+            if res != "ERR:AssertionError":
+                ctx.violation(f"groups {names[0]!r} and {names[1]!r} share one normalised name, so only the later one ({names[1]!r}, labels [5]) exists; label 1 in the "
+                              f"reference belongs to no group, but the input was not rejected", inp, impl=str(res)[:200], key={"kind": "undefined-accepted"})
+                continue
+            ok = E.run_impl(cfg, pred, ref, groups=groups)
+            if isinstance(ok, str) or sorted(ok) != sorted([names[1].lower(), "other"]):
+                ctx.violation(f"with the clashing names {names}, an input carrying only defined labels should be evaluated for the groups "
+                              f"{[names[1].lower(), 'other']}; got {ok if isinstance(ok, str) else sorted(ok)}", inp, key={"kind": "undefined-accepted"})
+
+
 def run(ctx):
     corpus(ctx)
+    name_clash_cases(ctx)
     rejection_form_cases(ctx, ctx.scale(60, 600))
     run_cases(ctx, ctx.scale(450, 4500), "rand")
 
@@ -351,6 +380,9 @@ def search(ctx):
 
 
 def replay(ctx, rec):
+    if rec["input"].get("name_clash"):
+        name_clash_cases(ctx)
+        return
     if rec["input"].get("stray"):
         rejection_form_cases(ctx, 80)
         return
